@@ -22,7 +22,8 @@ RULE = (
 )
 ASSUMPTIONS = ["the capture helper and the uberjob call are on one source line (same f_lineno)", "depth limit read from uberjob._util.traceback.MAX_TRACEBACK_DEPTH"]
 
-KINDS = ["call", "gather_explicit", "gather_implicit", "unpack", "reg_write", "reg_readback", "src_read", "src_noreg", "mtime_stored", "mtime_source"]
+KINDS = ["call", "gather_explicit", "gather_implicit", "unpack", "reg_write", "reg_readback", "src_read", "src_noreg", "mtime_stored", "mtime_source",
+         "gather_nested_set", "gather_nested_dictkey", "gather_nested_implicit", "gather_nested_deep"]
 
 
 def gen_cases(tier, seed):
@@ -32,7 +33,8 @@ def gen_cases(tier, seed):
         s = env.seed_for(seed, ID, tier, i)
         r = random.Random(s)
         out.append({"seed": s, "kind": r.choice(KINDS), "depth": r.choice([0, 0, 0, 1, 1, 2, 3, 4, 5, 8]), "helper": r.random() < 0.3,
-                    "bare_thread": r.random() < 0.75, "W": r.choice([1, 4]), "filler": r.randint(0, 5)})
+                    "bare_thread": r.random() < 0.75, "W": r.choice([1, 4]), "filler": r.randint(0, 5),
+                    "copy_reg": r.random() < 0.35})  # run with registry.copy(): the copy must attribute failures to the same lines
     return out
 
 
@@ -40,6 +42,11 @@ CREATE = {
     "call": "here('X'); node = plan.call(K.boom); K.out = node",
     "gather_explicit": "a = plan.call(K.mklist)\n{ind}here('X'); node = plan.gather({{a}}); K.out = node",
     "gather_implicit": "a = plan.call(K.mklist)\n{ind}here('X'); c = plan.call(K.ident, {{a}}); K.out = c",
+    # nested structures: every gather call created for one value carries the line of that plan.gather / plan.call
+    "gather_nested_set": "a = plan.call(K.mklist)\n{ind}here('X'); node = plan.gather([{{a}}, 1]); K.out = node",
+    "gather_nested_dictkey": "a = plan.call(K.mklist)\n{ind}here('X'); node = plan.gather(({{'k': {{a: 1}}}}, 2)); K.out = node",
+    "gather_nested_implicit": "a = plan.call(K.mklist)\n{ind}here('X'); c = plan.call(K.ident, [1, ({{a}}, 2)]); K.out = c",
+    "gather_nested_deep": "a = plan.call(K.mklist)\n{ind}here('X'); node = plan.gather({{'p': [({{a}},)], 'q': 1}}); K.out = node",
     "unpack": "a = plan.call(K.mk2)\n{ind}here('X'); u = plan.unpack(a, 3); K.out = u[0]",
     "reg_write": "x = plan.call(K.ok)\n{ind}here('X'); registry.add(x, K.BadWrite()); K.out = None",
     "reg_readback": "x = plan.call(K.ok)\n{ind}here('X'); registry.add(x, K.BadRead())\n{ind}y = plan.call(K.ident, x); K.out = y",
@@ -196,7 +203,7 @@ def run_case(desc):
     truncated = len(chain) > LIMIT + 1
     exc = None
     try:
-        uberjob.run(plan, output=K.out, registry=registry if K.use_registry else None, max_workers=desc["W"], progress=None)
+        uberjob.run(plan, output=K.out, registry=(registry.copy() if desc.get("copy_reg") else registry) if K.use_registry else None, max_workers=desc["W"], progress=None)
     except BaseException as e:
         exc = e
     bad = None
@@ -214,7 +221,8 @@ def run_case(desc):
                 break
             got.append((sf.name, sf.path, sf.line))
             sf = sf.outer
-        expected_fn = {"call": "boom", "gather_explicit": "gather_set", "gather_implicit": "gather_set", "unpack": "unpack", "reg_write": "write",
+        expected_fn = {"gather_nested_set": "gather_set", "gather_nested_dictkey": "gather_dict", "gather_nested_implicit": "gather_set", "gather_nested_deep": "gather_set",
+                       "call": "boom", "gather_explicit": "gather_set", "gather_implicit": "gather_set", "unpack": "unpack", "reg_write": "write",
                        "reg_readback": "read", "src_read": "read", "src_noreg": "source", "mtime_stored": "ok", "mtime_source": "source"}[desc["kind"]]
         if getattr(call.fn, "__name__", None) != expected_fn:
             bad = f"CallError.call is a call to {getattr(call.fn, '__name__', call.fn)!r}, expected the failing {expected_fn!r} call"
@@ -235,7 +243,8 @@ def run_case(desc):
                 bad = f"unexpected cause {exc.__cause__!r}"
     depth_total = len(chain)
     rel = "shallower" if depth_total < LIMIT + 1 else ("equal" if depth_total == LIMIT + 1 else "deeper")
-    res = {"status": "ok", "counters": {"failures_checked": 1, f"kind_{desc['kind']}": 1, f"chain_{rel}": 1, "helper_cases": int(desc["helper"])},
+    res = {"status": "ok", "counters": {"failures_checked": 1, f"kind_{desc['kind']}": 1, f"chain_{rel}": 1, "helper_cases": int(desc["helper"]),
+                                        "registry_copy_cases": int(bool(desc.get("copy_reg")) and desc["kind"] in ("reg_write", "reg_readback", "src_read", "mtime_stored", "mtime_source"))},
            "sets": {"kinds": [desc["kind"]], "chain_lengths": [str(depth_total)]},
            "nontrivial": desc["kind"] != "call" or depth_total >= LIMIT + 1,
            "sig": f"{desc['kind']}|{desc['depth']}|{desc['helper']}|{desc['bare_thread']}|{desc['W']}|{desc['filler']}"}
